@@ -188,7 +188,7 @@ func (r *runner) call(op *Op) {
 		s.Rec.Emit("plat", "RestoreCall", "timeoutMs", op.Ms, "label", op.Label)
 		t0 := time.Now()
 		_, err := s.Srv.Restore(&interop.Restore{AwsKey: "RK" + op.Label, AwsSecret: "RS" + op.Label, AwsSession: "RT" + op.Label,
-			CredentialsExpiry: time.Now().Add(time.Hour), RestoreHookTimeoutMs: int64(op.Ms)})
+			CredentialsExpiry: s.restoreExpiry(), RestoreHookTimeoutMs: int64(op.Ms)})
 		es := errStr(err)
 		var ue interop.ErrRestoreHookUserError
 		if errors.As(err, &ue) {
